@@ -106,3 +106,39 @@ fn c13_reader_ops_bounded() {
     let no_more_bytes = (consumed + 7) / 8 == 4;
     assert!(it.close().is_ok() == (no_more_bytes && rest_zero));
 }
+
+/// kind: bounded(<= 7 bits, flush, <= 9 more bits, flush)
+/// a writer keeps working after flush_all: the bits written afterwards reach the sink unchanged, zero padded
+#[kani::proof]
+#[kani::unwind(12)]
+fn c13_write_after_flush_bounded() {
+    let mut sink = ArrSink { buf: [0; 12], len: 0 };
+    let b1: [bool; 7] = kani::any();
+    let k1: usize = kani::any();
+    kani::assume(k1 <= 7);
+    let b2: [bool; 9] = kani::any();
+    let k2: usize = kani::any();
+    kani::assume(k2 <= 9);
+    {
+        let mut w = BitWriter::new(&mut sink);
+        let mut i = 0;
+        while i < k1 {
+            w.write_bit(b1[i]).unwrap();
+            i += 1;
+        }
+        w.flush_all().unwrap();
+        let mut i = 0;
+        while i < k2 {
+            w.write_bit(b2[i]).unwrap();
+            i += 1;
+        }
+        w.flush_all().unwrap();
+    }
+    let first = if k1 > 0 { 1 } else { 0 };
+    assert!(sink.len == first + (k2 + 7) / 8);
+    let j: usize = kani::any();
+    kani::assume(j < 8 * sink.len);
+    let got = sink.buf[j / 8] & (1 << (7 - j % 8)) != 0;
+    let want = if j < 8 * first { j < k1 && b1[j] } else { j - 8 * first < k2 && b2[j - 8 * first] };
+    assert!(got == want);
+}
